@@ -101,6 +101,7 @@ func runC17(c *Ctx, r *Report) {
 	c17Buffered(c, r)
 	c17ReadErrors(c, r)
 	c17ExitMessages(c, r)
+	c17ChildExit(c, r)
 }
 
 // ---- R17.1 -----------------------------------------------------------------
@@ -842,7 +843,7 @@ var dataPathPkgs = []string{"pkg/stream", "pkg/transformers", "pkg/transformers/
 
 // droppedOK: frozen exceptions keyed "caller → callee" with the reason.
 var droppedOK = map[string]string{
-	"pkg/lib.OpenInboundHalfPipe$1 → os.File.Close":    "read end of the prepipe's pipe, closed by the reaper goroutine after the child exited",
+	"(*pkg/lib.inboundHalfPipe).Close$1 → os.Process.Wait": "reaps a prepipe child whose remaining output the reader has declined (Close before end of file, e.g. mlr head): its exit status — typically broken pipe — is not an input failure; at end of file the status is checked in Read",
 	"pkg/lib.OpenOutboundHalfPipe$1 → os.Process.Wait": "reaper goroutine of an output pipe's child: a failed write to the pipe is reported by the write itself; the child's exit status is not a Miller fault",
 }
 
@@ -1722,4 +1723,49 @@ func sendHelper(fn *ssa.Function) (chanIdx, valIdx int, blocking, ok bool) {
 		}
 	}
 	return 0, 0, false, false
+}
+
+// ---- R17.13 ------------------------------------------------------------------
+// The exit state of a child process that produces Miller's *input* is examined.
+func c17ChildExit(c *Ctx, r *Report) {
+	r.Rule("R17.13", "a failed input command is not a short input: every os.Process.Wait on a child started for reading (a function of pkg/lib that also hands out the read end of the child's pipe) uses the returned ProcessState (Success / ExitCode), on the path that ends the read")
+	n := 0
+	for _, fn := range c.ModuleFunctions() {
+		if fn.Pkg == nil || !strings.HasSuffix(fn.Pkg.Pkg.Path(), "/pkg/lib") {
+			continue
+		}
+		for _, b := range fn.Blocks {
+			for _, in := range b.Instrs {
+				call, ok := in.(*ssa.Call)
+				if !ok || CalleeName(&call.Call) != "os.Process.Wait" {
+					continue
+				}
+				owner := fn
+				for owner.Parent() != nil {
+					owner = owner.Parent()
+				}
+				name := SSAName(owner)
+				if !strings.Contains(strings.ToLower(name), "inbound") {
+					continue
+				}
+				n++
+				used := false
+				for _, ref := range *call.Referrers() {
+					if ex, ok := ref.(*ssa.Extract); ok && ex.Index == 0 && len(*ex.Referrers()) > 0 {
+						used = true
+					}
+				}
+				key := fmt.Sprintf("%s: Wait #%d", SSAName(fn), n)
+				if !used {
+					if why, ok := droppedOK[SSAName(fn)+" → os.Process.Wait"]; ok {
+						r.OK("R17.13", key, c.Rel(call.Pos()), "frozen exception: "+why)
+						continue
+					}
+				}
+				r.Check(used, "R17.13", key, c.Rel(call.Pos()), "ProcessState examined",
+					SSAName(fn)+" waits for the input command and discards its ProcessState: a prepipe command that fails (gunzip on a damaged file, a missing program) looks like a short or empty input and mlr exits 0")
+			}
+		}
+	}
+	r.Floor("R17.13", "waits on input children", n, 1)
 }
